@@ -1464,7 +1464,9 @@ class SecurityBase(Node):
         _wvalues(self._values)[inow] = self._value
         _wvalues(self._notl_values)[inow] = self._notl_value
 
-        if is_zero(self._weight) and is_zero(self._position):
+        # (while changes are pending in the tree the cached weight cannot be
+        # trusted: the security may have been traded since it was computed)
+        if is_zero(self._weight) and is_zero(self._position) and not self.root.stale:
             self._needupdate = False
 
         # save outlay to outlays
